@@ -26,7 +26,7 @@ var (
 		"nodesim-foreign-result", "nodesim-panic"}
 	nsFamC17 = []string{"nodesim-no-leader-in-fair-phase", "nodesim-no-progress-in-fair-phase",
 		"nodesim-replica-not-caught-up", "stuck-quorum-needs-self-removed-replica",
-		"stuck-higher-term-replica-ignores-leader", "nodesim-idle-quiescent-shard-stays-leaderless", "nodesim-panic"}
+		"stuck-higher-term-replica-ignores-leader", "nodesim-idle-quiescent-shard-stays-leaderless", "nodesim-joiner-ignored-by-quiescent-shard", "nodesim-panic"}
 )
 
 type nsWeight struct {
@@ -111,8 +111,12 @@ func (g *nsGen) genOpts() nsOpts {
 	o.checkQuorum = g.coin("checkQuorum")
 	o.preVote = g.coin("preVote")
 	o.quiesce = g.pick("quiesce", 16) < g.p.quiescePct
+	o.overhead = nsOverhead
 	if g.coin("snapshots") {
 		o.snapshotEntries = uint64(4 + g.pick("snapshotEntries", 12))
+		if g.coin("compaction") {
+			o.overhead = uint64(1 + g.pick("overhead", 8))
+		}
 	}
 	o.seed = int64(vfhelp.Pick(g.t, "seed", 30)) + 1
 	return o
@@ -621,7 +625,7 @@ func nsRun(t *testing.T, p *nsProfile) {
 		}
 		labels = append(labels, fmt.Sprintf("voters=%d", opts.voters),
 			fmt.Sprintf("cq=%t", opts.checkQuorum), fmt.Sprintf("pv=%t", opts.preVote),
-			fmt.Sprintf("quiesce=%t", opts.quiesce), fmt.Sprintf("snapshots=%t", opts.snapshotEntries > 0))
+			fmt.Sprintf("quiesce=%t", opts.quiesce), fmt.Sprintf("snapshots=%t", opts.snapshotEntries > 0), fmt.Sprintf("compaction=%t", opts.overhead != nsOverhead))
 		sort.Strings(labels)
 		s.flags = pre
 		nt := s.outOfModel == "" && p.nontrivial(s)
